@@ -1,10 +1,9 @@
-import re
 import string
 from enum import Enum
 from typing import Any, Optional
 
 from flamapy.core.transformations import ModelToText
-from flamapy.core.models.ast import ASTOperation
+from flamapy.core.models.ast import ASTOperation, Node
 from flamapy.metamodels.fm_metamodel.models import FeatureModel, Feature, Constraint
 
 
@@ -116,17 +115,38 @@ def read_constraints(const: Constraint) -> str:
     return result
 
 
+CLAFER_OPERATORS = {
+    ASTOperation.NOT: 'not',
+    ASTOperation.AND: '&&',
+    ASTOperation.XOR: 'xor',
+    ASTOperation.OR: '||',
+    ASTOperation.IMPLIES: '=>',
+    ASTOperation.EQUIVALENCE: '<=>',
+    ASTOperation.REQUIRES: '=>',
+    ASTOperation.EXCLUDES: '=> not',
+}
+
+
 def serialize_constraint(ctc: Constraint) -> str:
-    ctc_str = ctc.ast.pretty_str()
-    ctc_str = re.sub(fr'\b{ASTOperation.NOT.value}\b', 'not', ctc_str)
-    ctc_str = re.sub(fr'\b{ASTOperation.AND.value}\b', '&&', ctc_str)
-    ctc_str = re.sub(fr'\b{ASTOperation.XOR.value}\b', 'xor', ctc_str)
-    ctc_str = re.sub(fr'\b{ASTOperation.OR.value}\b', '||', ctc_str)
-    ctc_str = re.sub(fr'\b{ASTOperation.IMPLIES.value}\b', '=>', ctc_str)
-    ctc_str = re.sub(fr'\b{ASTOperation.EQUIVALENCE.value}\b', '<=>', ctc_str)
-    ctc_str = re.sub(fr'\b{ASTOperation.REQUIRES.value}\b', '=>', ctc_str)
-    ctc_str = re.sub(fr'\b{ASTOperation.EXCLUDES.value}\b', '=> not', ctc_str)
-    return f'[{ctc_str}]'
+    return f'[{_serialize_node(ctc.ast.root)}]'
+
+
+def _serialize_node(node: Node) -> str:
+    """Serialize the expression tree itself (same layout as Node.pretty_str), so that operator
+    spellings are never looked for inside identifiers."""
+    if not node.is_op() or node.data not in CLAFER_OPERATORS:
+        return node.pretty_str()
+    operator = CLAFER_OPERATORS[node.data]
+    left = _serialize_operand(node.left) if node.left is not None else ''
+    right = _serialize_operand(node.right) if node.right is not None else ''
+    if node.is_unary_op():
+        return f'{operator} {left}'
+    return f'{left} {operator} {right}'
+
+
+def _serialize_operand(node: Node) -> str:
+    result = _serialize_node(node)
+    return f'({result})' if node.is_op() and node.is_binary_op() else result
 
 
 def attributes_definition(feature_model: FeatureModel) -> str:
